@@ -105,6 +105,12 @@ def _run_base(ctx):
                  'endpoint can write to disk: %s in %s via %s' % (bad[0][1][1], bad[0][0], ' -> '.join(cg.path([h], bad[0][0]) or [])),
                  bad[0][1][0] if bad else repo.functions[h])
 
+    # the store endpoint has exactly ONE place it writes to: the output file fixed at start-up
+    n_store_sinks = len(persistent.get(store, []))
+    ctx.inst('R20.4', store, '%d persistent file-system sink(s): %s' % (n_store_sinks, [w for c, w in persistent.get(store, [])]), n_store_sinks == 1,
+             'the output file only' if n_store_sinks == 1 else
+             ('no write at all' if n_store_sinks == 0 else 'the endpoint writes to more than the output file (a backup / side file next to it): the working directory changes beyond the one '
+              'location the server was started with'), persistent[store][-1][0] if persistent.get(store) else repo.func(store))
     # ---------------------------------------------------------------- R20.2
     fn = repo.func(store)
     g = CFG(fn)
